@@ -104,6 +104,12 @@ let run (args : (string * string) list) : string =
       add "lseq" (ok (hexlists_of_string (get args "lseq") = ls));
       add "lra" (ok (hexlists_of_string (get args "lra") = ls));
       add "ldeg" (ok (ints_of_string (get args "ldeg") = List.map List.length lg));
+      (match get_opt args "fromseq", get_opt args "fromra" with
+       | Some a, Some b ->
+         (* iter_from(n/2) of both labelings: the labels of the nodes from n/2 on *)
+         let expect = drop (nn / 2) ls in
+         add "lfrom" (ok (hexlists_of_string a = expect && hexlists_of_string b = expect))
+       | _ -> ());
       add "verify" (ok (get args "verify" = "11"));
       add "leftovers" (ok (get args "leftovers" = "0"))
     end;
